@@ -7,7 +7,7 @@ MANIFEST = {
     "text": "Coq theorems over an executable model of WithFence/DoFence/the fence handler/the DAO as a thread machine of driver "
             "operations (C06_at_most_once, C06_exclusive, C06_suspension by induction over UNBOUNDED histories of deliveries and "
             "two-delivery races on any number of branches; C06_atomic for every delivery and every fault position; C06_race for "
-            "every schedule of two racing deliveries). The model is tied to the source on every run by running the real "
+            "every schedule of two racing deliveries with a failure at any operation of either). The model is tied to the source on every run by running the real "
             "fence.WithFence on a stateful database/sql/driver stand-in (unique key -> MySQL error 1062, select for update, "
             "compare-and-set update, transactions, row locks, fault at the k-th driver operation) over all histories of one "
             "branch up to length 6, a fault at every operation of every delivery of short histories, sampled multi-branch "
@@ -57,7 +57,9 @@ def case_term(c):
     obs = coq_list([obs_term(o) for o in (c["obs"] or [])])
     if c.get("race"):
         r = c["race"]
-        race = "(Some (%s, %s, %s))" % (ph(r["p1"]), ph(r["p2"]), coq_list(["true" if b else "false" for b in r["sched"]]))
+        fx = lambda f: "None" if f is None or f < 0 else "(Some F%d)" % f
+        race = "(Some (%s, %s, %s, %s, %s))" % (ph(r["p1"]), ph(r["p2"]), fx(r.get("f1", -1)), fx(r.get("f2", -1)),
+                                                coq_list(["true" if b else "false" for b in r["sched"]]))
     else:
         race = "None"
     robs = coq_list([obs_term(o) for o in (c.get("robs") or [])])
@@ -74,8 +76,8 @@ def size(c):
 
 def params(chk):
     if chk.tier == "quick":
-        return dict(seqlen=6, faultlen=3, nsample=300, schedbits=6, drvlen=4)
-    return dict(seqlen=9, faultlen=5, nsample=100000, schedbits=8, drvlen=6)
+        return dict(seqlen=6, faultlen=3, nsample=300, schedbits=6, drvlen=4, faultschedbits=3)
+    return dict(seqlen=9, faultlen=5, nsample=100000, schedbits=8, drvlen=6, faultschedbits=6)
 
 
 def run(chk, replay_case=None):
